@@ -216,4 +216,82 @@ theorem forces_stale_when_aliased :
 example : AInv (a4State true) :=
   ainv_validate true c4Sim _ (by intro e he; cases he) (Or.inl rfl)
 
+/-! ### grand-canonical histories -/
+
+/-- the three restoration facts for the trial kinds of a `GTrial` history (displacement-type tree, single exchange) -/
+theorem trial_hyps_G (sim : Sim) (he : sim.ens = .grand) (t : GTrial) (s : State) (h : GInv sim s)
+    (hok : match t.kind with
+           | .pos tr => (∀ r ∈ tr.refs, r < s.heap.length) ∧ PosTree s tr
+           | .exch r => (s.obj r).kind = .exch ∧ r ∈ tableRefs sim ∧ r < s.heap.length) :
+    ((callTree t.tree s).1 = false → (callTree t.tree s).2.atoms = s.atoms) ∧
+    ((callTree t.tree s).1 = true → (revertState sim (callTree t.tree s).2).atoms = s.atoms) ∧
+    ((callTree t.tree s).1 = true → ∀ c : CalcS, Fresh c (callTree t.tree s).2.atoms →
+            Fresh (revertCalc sim.ens c (some (energy s.atoms)) s.atoms) s.atoms) := by
+  have hb : sim.ens ≠ .base := by rw [he]; simp
+  have hrcG : ∀ c : CalcS, Fresh (revertCalc sim.ens c (some (energy s.atoms)) s.atoms) s.atoms := by
+    intro c; rw [he]; exact revertCalc_fresh_grand c s.atoms
+  unfold GTrial.tree
+  cases hk : t.kind with
+  | pos tr =>
+    rw [hk] at hok
+    have hinv : Inv sim.ens s := by
+      refine ⟨fun _ => h.invg.lastPos, ?_, ?_, h.invg.noAdded, h.invg.noDeleted⟩
+      · intro hx; rw [he] at hx; cases hx
+      · intro hx; rw [he] at hx; cases hx
+    refine ⟨callTree_fail tr s hok.1 hok.2, ?_, fun _ c _ => hrcG c⟩
+    intro hok'
+    have := (reject_restores sim tr s hb hinv hok.1 hok.2 hok').2
+    simpa [trial, hok'] using this
+  | exch r =>
+    rw [hk] at hok
+    have hrl : (s.obj r).labels.length = s.atoms.rows.length :=
+      h.aligned r hok.2.1 hok.2.2 (by simp [labelBearing, hok.1])
+    have hnew := toAddOf_ne_nil (s.obj r) s.ctx h.templ
+    have hna := exch_not_accepted_restores sim he r s h.invg hok.1 hrl hnew
+    refine ⟨?_, ?_, fun _ c _ => hrcG c⟩
+    · intro hf
+      simp only [trial, hf, Bool.false_eq_true, if_false] at hna
+      exact hna
+    · intro hok'
+      simp only [trial, hok', if_true, Bool.false_eq_true, if_false] at hna
+      exact hna
+
+def fstepG (inplace : Bool) (sim : Sim) (t : GTrial) (s : AState) : (Outcome × Option (List V3)) × AState :=
+  let r := atrial true inplace sim t.tree t.verdict { s with cs := withInp s.cs t.inp }
+  let s' := alogRead inplace r.2
+  ((r.1, aForces inplace s'), s')
+
+def runFG (inplace : Bool) (sim : Sim) : List GTrial → AState → AState
+  | [], s => s
+  | t :: ts, s => runFG inplace sim ts (fstepG inplace sim t s).2
+
+def AllForcesFreshG (inplace : Bool) (sim : Sim) : List GTrial → AState → Prop
+  | [], _ => True
+  | t :: ts, s =>
+    (fstepG inplace sim t s).1.2 = some (forcesOf (fstepG inplace sim t s).2.cs.m.atoms) ∧
+    AllForcesFreshG inplace sim ts (fstepG inplace sim t s).2
+
+/-- **forces_history_grand**: the same over grand-canonical histories of displacement-type trials, insertions and
+    deletions: after every trial `get_forces()` is the from-scratch force array of the current atoms (whose number
+    changes along the history) -/
+theorem forces_history_grand (inplace : Bool) (sim : Sim) (he : sim.ens = .grand) (ts : List GTrial) (s : AState)
+    (hg : GInv sim s.cs.m) (h : AInv s) (hok : GHistoryOK sim ts s.cs.m) :
+    AInv (runFG inplace sim ts s) ∧ AllForcesFreshG inplace sim ts s := by
+  induction ts generalizing s with
+  | nil => exact ⟨h, trivial⟩
+  | cons t ts ih =>
+    obtain ⟨hk, hrest⟩ := hok
+    have hg' : GInv sim (withInp s.cs t.inp).m :=
+      ⟨⟨hg.invg.1, hg.invg.2, hg.invg.3, hg.invg.4, hg.invg.5, hg.invg.6⟩, hg.delta0, hg.aligned, hg.templ⟩
+    have h' : AInv { s with cs := withInp s.cs t.inp } := ⟨⟨h.einv.1, h.einv.2, h.einv.3⟩, h.ref, h.last⟩
+    obtain ⟨h1, h2, h3⟩ := trial_hyps_G sim he t (withInp s.cs t.inp).m hg' hk
+    obtain ⟨g1, g2, g3⟩ := ainv_trial_of inplace sim t.tree t.verdict { s with cs := withInp s.cs t.inp } h' h1 h2 h3
+    have hcs : (fstepG inplace sim t s).2.cs = (cstepG sim t s.cs).2 := g3
+    have hm : (fstepG inplace sim t s).2.cs.m = (gstep sim t s.cs.m).2 := by rw [hcs]; exact cstepG_m sim t s.cs
+    have hg2 : GInv sim (fstepG inplace sim t s).2.cs.m := by
+      rw [hm]; exact (gstep_spec sim he t s.cs.m hg hk).1
+    have hrest2 : GHistoryOK sim ts (fstepG inplace sim t s).2.cs.m := by rw [hm]; exact hrest
+    obtain ⟨i1, i2⟩ := ih _ hg2 g1 hrest2
+    exact ⟨i1, g2, i2⟩
+
 end MC
